@@ -184,7 +184,12 @@ func Go(name string, fn func(), args ...any) {
 	node, inc := CurNode(), CurInc()
 	full := fmt.Sprintf("n%d/%s(%s)", node, name, render(args))
 	newTask(node, inc, full, fn, args)
-	Yield(PSpawn)
+	// No scheduling point here: spawn loops of the library iterate over maps,
+	// so the set of siblings existing at this instant depends on map order and
+	// a decision taken here would not be replayable. The new task is
+	// considered at the spawner's next synchronisation operation; every
+	// goroutine the library starts begins by taking the node lock, which the
+	// spawner holds, so no behaviour is lost.
 }
 
 // Spawn creates a managed task on behalf of the harness.
